@@ -382,6 +382,29 @@ def _validate_units_consistency_v2(ref_units, *args) -> None:
         _validate_units_consistency((1 * ref_units, *args))
 
 
+def _validate_side_values(ref, kwargs, names, positional=()):
+    """
+    Values that numpy puts next to the data of *ref* (``prepend=``, ``append=``,
+    ``constant_values=``, ...): those that carry units must carry the units of
+    *ref*; they are handed on as plain numbers in those units.
+    """
+
+    def quantities(obj):
+        if isinstance(obj, unyt_array):
+            return [obj]
+        if isinstance(obj, (np.ndarray, Number, str)) or not np.iterable(obj):
+            return []
+        return [q for sub in obj for q in quantities(sub)]
+
+    values = [kwargs.get(k) for k in names] + list(positional)
+    with_units = quantities(values)
+    if with_units:
+        _validate_units_consistency_v2(getattr(ref, "units", NULL_UNIT), *with_units)
+    for k in names:
+        if isinstance(kwargs.get(k), unyt_array):
+            kwargs[k] = np.asarray(kwargs[k])
+
+
 @implements(np.concatenate)
 def concatenate(arrs, /, axis=0, out=None, *args, **kwargs):
     ret_units = _validate_units_consistency(arrs)
@@ -917,11 +940,15 @@ def diff_helper(func, arr, *args, **kwargs):
 
 @implements(np.diff)
 def diff(a, *args, **kwargs):
+    _validate_side_values(a, kwargs, ("prepend", "append"), args[2:4])
+    args = args[:2] + tuple(np.asarray(v) for v in args[2:4])
     return diff_helper(np.diff, a, *args, **kwargs)
 
 
 @implements(np.ediff1d)
 def ediff1d(ary, *args, **kwargs):
+    _validate_side_values(ary, kwargs, ("to_end", "to_begin"), args[:2])
+    args = tuple(None if v is None else np.asarray(v) for v in args[:2])
     return diff_helper(np.ediff1d, ary, *args, **kwargs)
 
 
